@@ -1,11 +1,11 @@
 package main
 
 import (
-	"os"
 	"go/ast"
 	"go/constant"
 	"go/token"
 	"go/types"
+	"os"
 	"sort"
 	"strings"
 )
